@@ -7,7 +7,7 @@ From Coq Require Import NArith List Lia.
 From Snap.Gen Require Import CrcTables.
 From Snap.Crc Require Import CrcModel CrcProofs.
 From Snap.Codec Require Import Varint.
-From Snap.Hash Require Import Words Murmur3 Spooky2 Vectors VectorsOk BlockSize.
+From Snap.Hash Require Import Words Murmur3 Spooky2 Vectors VectorsOk BlockSize HashSelect.
 Import ListNotations.
 Local Open Scope N_scope.
 
@@ -125,6 +125,42 @@ Example C16_block_size_nonvacuous :
   file_block_size 0 0 4294967295 1024 = 0 /\ blockmax_of 2500 1024 = 3.
 Proof. exact block_size_examples. Qed.
 
+(* ---- which (kind, seed) hashes a block: check.c blockcmp and the rehash state ------------------------------
+   A block still flagged "to rehash" is hashed with the PREVIOUS kind and the PREVIOUS seed ('C' record), any other
+   block with the current kind and seed ('c' record); `snapraid rehash` therefore keeps every stored hash valid for
+   every new kind and every new seed.  Tie: the vendored arrays frozen in the middle of a rehash are repaired by the
+   binary under test, and every hash stored in the vendored content files is recomputed with the extracted
+   block_hash.  (Split parity addressing by the RECORDED sizes is C17's: C17_split_find_bijection,
+   C17_read_after_reopen, C17_chsize_missing in Props/Properties_C17.v; here it is tied by the repair of the vendored
+   split arrays after losing / truncating each split file.) *)
+Theorem C16_block_hash_selection : forall c data,
+  (forall k s, hc_prev c = Some (k, s) -> block_hash c true data = firstn (hc_size c) (memhash k s data)) /\
+  block_hash c false data = firstn (hc_size c) (memhash (hc_kind c) (hc_seed c) data).
+Proof. exact block_hash_selection. Qed.
+Theorem C16_blockcmp_accepts_written : forall c rehash data, blockcmp c rehash (block_hash c rehash data) data = true.
+Proof. exact blockcmp_accepts_written. Qed.
+Theorem C16_blockcmp_sound : forall c rehash stored data,
+  blockcmp c rehash stored data = true -> stored = block_hash c rehash data.
+Proof. exact blockcmp_sound. Qed.
+Theorem C16_rehash_keeps_hashes_valid : forall c nk ns data,
+  block_hash (rehash_conf c nk ns) true data = block_hash c false data.
+Proof. exact rehash_keeps_hashes_valid. Qed.
+Theorem C16_rehash_blockcmp : forall c nk ns data,
+  blockcmp (rehash_conf c nk ns) true (block_hash c false data) data = true.
+Proof. exact rehash_blockcmp. Qed.
+(* with the seed forgotten (previous kind, NEW seed) the statement is false *)
+Theorem C16_newseed_selection_refuted :
+  exists c nk ns data,
+    block_hash_newseed (rehash_conf c nk ns) true data <> block_hash c false data /\
+    bytes_eqb (block_hash_newseed (rehash_conf c nk ns) true data) (block_hash c false data) = false.
+Proof. exact newseed_selection_refuted. Qed.
+Example C16_block_hash_nonvacuous :
+  length (block_hash ex_conf false ex_data) = 16%nat /\
+  length (block_hash (HC Spooky2 ex_newseed (Some (Murmur3, repeat 0 16)) 8) true ex_data) = 8%nat /\
+  block_hash (rehash_conf ex_conf Spooky2 ex_newseed) true ex_data = block_hash ex_conf false ex_data /\
+  block_hash (rehash_conf ex_conf Spooky2 ex_newseed) false ex_data <> block_hash ex_conf false ex_data.
+Proof. exact block_hash_example. Qed.
+
 Print Assumptions C16_crc_table_ok.
 Print Assumptions C16_crc_table_eq.
 Print Assumptions C16_crc_slice4_eq.
@@ -158,3 +194,10 @@ Print Assumptions C16_spooky2_vectors.
 Print Assumptions C16_vectors_shape.
 Print Assumptions C16_block_size_rule.
 Print Assumptions C16_block_size_nonvacuous.
+Print Assumptions C16_block_hash_selection.
+Print Assumptions C16_blockcmp_accepts_written.
+Print Assumptions C16_blockcmp_sound.
+Print Assumptions C16_rehash_keeps_hashes_valid.
+Print Assumptions C16_rehash_blockcmp.
+Print Assumptions C16_newseed_selection_refuted.
+Print Assumptions C16_block_hash_nonvacuous.
